@@ -39,6 +39,18 @@ APIS = ["optimize", "optimize_ir", "fold_constants", "rewrite", "remove_unused_n
 # ------------------------------------------------------------------------------------------------
 # the API under test
 # ------------------------------------------------------------------------------------------------
+class HarnessSerde(Exception):
+    """proto -> ir.Model conversion done BY THE HARNESS (entry form ir.Model / optimize_ir) failed: the API under test was
+    never called (counted as a skip; the same model reaches the API through the ModelProto entry)."""
+
+
+def _deserialize(ir, m):
+    try:
+        return ir.serde.deserialize_model(m)
+    except Exception as e:  # noqa: BLE001
+        raise HarnessSerde(f"{type(e).__name__}: {e}"[:200]) from None
+
+
 def call_api(model, api="optimize", opts=None, entry="proto"):
     """-> optimized ModelProto.  The input proto is never mutated (a copy is handed to in-place APIs)."""
     from onnxscript import ir, optimizer, rewriter
@@ -48,25 +60,25 @@ def call_api(model, api="optimize", opts=None, entry="proto"):
     m.CopyFrom(model)
     if api == "optimize":
         if entry == "ir":
-            mir = ir.serde.deserialize_model(m)
+            mir = _deserialize(ir, m)
             out = optimizer.optimize(mir, **kw)
             return ir.serde.serialize_model(out)
         return optimizer.optimize(m, **kw)
     if api == "optimize_ir":
-        mir = ir.serde.deserialize_model(m)
+        mir = _deserialize(ir, m)
         optimizer.optimize_ir(mir, **kw)
         return ir.serde.serialize_model(mir)
     if api == "fold_constants":
         kw = {k: v for k, v in kw.items() if k in ("onnx_shape_inference", "input_size_limit", "output_size_limit")}
         if entry == "ir":
-            mir = ir.serde.deserialize_model(m)
+            mir = _deserialize(ir, m)
             optimizer.fold_constants(mir, **kw)
             return ir.serde.serialize_model(mir)
         optimizer.fold_constants(m, **kw)
         return m
     if api == "rewrite":
         if entry == "ir":
-            mir = ir.serde.deserialize_model(m)
+            mir = _deserialize(ir, m)
             return ir.serde.serialize_model(rewriter.rewrite(mir))
         return rewriter.rewrite(m)
     if api == "rewrite_expand":  # C09: the (non-default) expand-before-binary-op rule set, after shape inference
@@ -80,7 +92,7 @@ def call_api(model, api="optimize", opts=None, entry="proto"):
         return rewriter.rewrite(o, expand_before_binary_op_rules)
     if api == "remove_unused_nodes":
         if entry == "ir":
-            mir = ir.serde.deserialize_model(m)
+            mir = _deserialize(ir, m)
             optimizer.remove_unused_nodes(mir)
             return ir.serde.serialize_model(mir)
         optimizer.remove_unused_nodes(m)
@@ -162,6 +174,7 @@ class Orig:
         self._ref = None
         self._ref_problem = None
         self.ort_ran = 0   # valuations BOTH runtimes executed (whether or not their results agreed): "the model executes"
+        self.ort_only = 0  # valuations ORT executed and onnx.reference could not (no implementation / unsupported form)
 
     def _run_ref(self, feeds):
         """Reference evaluator created once per model (many bindings are run per model in C09)."""
@@ -185,6 +198,20 @@ class Orig:
         """-> (outs, None) | (None, reason)"""
         if self.sess is None:
             return None, self.load_problem
+        if self._random_active(feeds) and not self._seeded_random():
+            # The original draws random numbers (training-mode Dropout, Random*) that reach other nodes: two runs of the
+            # SAME model differ (ORT's generator advances with every run), so an agreement of the two runtimes would be
+            # chance and nothing can be compared afterwards.
+            try:
+                self.sess.run(feeds)
+            except runeq.RunError:
+                return None, "ort-run"
+            try:
+                self._run_ref(feeds)
+                self.ort_ran += 1    # it executes: C04 totality / validity / interface still apply
+            except runeq.RunError:
+                self.ort_only += 1
+            return None, "random-original"
         try:
             o = self.sess.run(feeds)
         except runeq.RunError:
@@ -192,6 +219,7 @@ class Orig:
         try:
             r = self._run_ref(feeds)
         except runeq.RunError as e:
+            self.ort_only += 1
             return None, "ref-" + e.kind
         self.ort_ran += 1
         d = runeq.compare(o, r, loose=10.0)
@@ -202,6 +230,52 @@ class Orig:
         if d:
             return None, "disagree"
         return o, None
+
+    def _random_active(self, feeds):
+        """Does the model hold a Random* / Multinomial / Bernoulli node, or a Dropout whose training_mode input is not
+        known to be false (value looked up in the feeds, the initializers and the Constant nodes of every graph)?"""
+        consts = {}
+
+        def collect(g):
+            for t in g.initializer:
+                consts.setdefault(t.name, t)
+            for n in g.node:
+                if n.op_type == "Constant" and n.attribute and n.attribute[0].name == "value":
+                    consts.setdefault(n.output[0], n.attribute[0].t)
+                for a in n.attribute:
+                    if a.type == onnx.AttributeProto.GRAPH:
+                        collect(a.g)
+        collect(self.model.graph)
+        active = []
+
+        def walk(nodes, in_function):
+            for n in nodes:
+                if n.op_type.startswith("Random") or n.op_type in ("Multinomial", "Bernoulli"):
+                    active.append(n.op_type)
+                if n.op_type == "Dropout" and len(n.input) > 2 and n.input[2]:
+                    def known(name):
+                        if in_function or not name:
+                            return None
+                        if name in feeds:
+                            return np.asarray(feeds[name])
+                        if name in consts:
+                            return onnx.numpy_helper.to_array(consts[name])
+                        return None
+                    training, ratio = known(n.input[2]), known(n.input[1])
+                    off = (training is not None and not bool(np.asarray(training).any())) or \
+                          (ratio is not None and not bool(np.asarray(ratio).any()))   # ratio 0: x and an all-true mask
+                    if not off:
+                        active.append("Dropout")
+                for a in n.attribute:
+                    if a.type == onnx.AttributeProto.GRAPH:
+                        walk(a.g.node, in_function)
+        walk(self.model.graph.node, False)
+        for f in self.model.functions:
+            for n in f.node:
+                if n.op_type == "Constant" and n.attribute and n.attribute[0].name == "value":
+                    consts.setdefault(n.output[0], n.attribute[0].t)
+            walk(f.node, True)
+        return bool(active)
 
     def _seeded_random(self):
         """True iff the model's only random nodes are main-graph Dropout nodes with an explicit seed and a training_mode
@@ -265,6 +339,13 @@ def interface(model):
     def ty(v):
         t = v.type
         w = t.WhichOneof("value")
+        if w == "optional_type":
+            # optional(tensor) / optional(sequence(tensor)): compared like the wrapped type (symbolic dim names are not
+            # part of the contract)
+            inner = onnx.ValueInfoProto()
+            inner.type.CopyFrom(t.optional_type.elem_type)
+            k = ty(inner)
+            return ("optional:" + str(k[0]), k[1], k[2])
         if w == "tensor_type":
             tt = t.tensor_type
             dims = None
@@ -402,6 +483,9 @@ def _classify_validity(p):
     """Coarse class of a validity problem for finding keys: '<source>:<op>:<message without names and numbers>'."""
     import re
     src = p.split(":")[0]
+    mu = re.search(r"Unrecognized attribute: (\w+) for operator (\w+)", p)
+    if mu:
+        return f"{src}:{mu.group(2)}:Unrecognized attribute {mu.group(1)}"
     ms = re.findall(r"\(op_type:(\w+)", p)
     m2 = re.search(r"schema\(([\w.]*)::(\w+)", p)
     op = ms[-1] if ms else (m2.group(2) if m2 else "")
@@ -425,11 +509,17 @@ def _exc_class(e):
         cur = cur.__cause__ or cur.__context__
         seen += 1
     where = ""
-    for fr in reversed(traceback.extract_tb(cur.__traceback__)):
+    frames = traceback.extract_tb(cur.__traceback__)
+    for fr in reversed(frames):
         if "onnxscript" in fr.filename:
-            import os
             where = f"{os.path.splitext(os.path.basename(fr.filename))[0]}.{fr.name}"
             break
+    if not where and frames:
+        # raised and caught below onnxscript (onnx_ir pass infrastructure / serde): name the raising frame and its package
+        fr = frames[-1]
+        parts = fr.filename.replace("\\", "/").split("/")
+        pkg = parts[parts.index("site-packages") + 1] if "site-packages" in parts else ""
+        where = f"{pkg}:{os.path.splitext(os.path.basename(fr.filename))[0]}.{fr.name}"
     return f"{type(cur).__name__}@{where}"
 
 
@@ -502,11 +592,19 @@ def evaluate(built, item, binds=(None,), n_val=mz.N_VALUATIONS, api=None, opts=N
     # ---- the call ---------------------------------------------------------------------------------
     try:
         opt = call_api(model, api, opts, entry)
+    except HarnessSerde as e:
+        rec["skip"] = "harness-cannot-build-ir-model"
+        rec["problem"] = str(e)
+        return rec
     except Exception as e:  # noqa: BLE001
         rec["raised"] = f"{type(e).__name__}: {e}"[:300]
         cls = _exc_class(e)
-        if orig.ort_ran:  # the model is checker-valid and executes: C04 demands totality
+        if orig.ort_ran or orig.ort_only:
+            # the model is checker-valid and executes (on ORT at least; the reference evaluator lacks some ops and
+            # constant forms, which says nothing about the model): C04 demands totality
             rec["c04"].append({"kind": "raises", "component": api, "param": cls, "detail": rec["raised"]})
+            if not orig.ort_ran:
+                cnt["raised_on_model_only_ort_executes"] += 1
         else:
             cnt["raised_on_non_executing_model"] += 1
         return rec
@@ -589,6 +687,17 @@ def evaluate(built, item, binds=(None,), n_val=mz.N_VALUATIONS, api=None, opts=N
                 break
         cnt["comparisons"] += 1
         d = compare_runs(exp, got)
+        if d and how is None and osess is not None:
+            # ORT's result for the OPTIMIZED model differs.  As for the original, a runtime's answer counts only when
+            # the two runtimes agree: when onnx.reference runs the optimized model and returns what the original
+            # returned, the runtimes disagree about the optimized model and nothing is concluded (counted).
+            try:
+                rgot = run_ref(opt, feeds)
+                if compare_runs(exp, rgot) is None:
+                    cnt["optimized_runtimes_disagree_reference_matches_original"] += 1
+                    continue
+            except runeq.RunError:
+                pass
         if d:
             neq = {"symptom": d.split(":")[1].strip().split(" ")[0] if ":" in d else d, "bind": b, "k": k, "detail": d,
                    "expected": runeq.describe(exp), "got": runeq.describe(got)}
